@@ -18,10 +18,8 @@ CHECKS = {
             "every run (meta-induction), DFS completeness of search_paths: decided on bounded inputs by the run-time engine contracts (fixpoint at every block) and BS-PROG "
             "(real pipeline vs the independent interpreter spec/avm.py).",
             "contract-based deductive verification (pyvc) + bounded run-time engine contracts + BS-PROG for the end-to-end clause"),
- "C02": (O, "search_paths (a recursive closure over lists of lists) is not under contract; of the exclusion clause the boolean structure is proved (and_exact / or_exact of _get_asserted: "
-            "a guard under && / || constrains the field exactly as its operands do), as is validated_in_block. Otherwise decided by the bounded stand-in: every reported path of every detector "
-            "on the generated programs is re-validated against the AVM control rules computed from the independent parser (entry start, legal transfers, matched call/return, "
-            "terminating last block, no revisit inside an activation, no duplicates).", "bounded native contract check (BS-PROG) + two deductive clauses of the exclusion part"),
+ "C02": (O, 'search_paths (a recursive closure over lists of lists) is not under contract. The exclusion clause -- a reported path contains no block at which the dangerous value has been excluded -- rests on the exactness contracts shared with C03, which this check verifies too (comparison kernels exact in both operand orders incl. the mirrored operator, and_exact / or_exact of _get_asserted, validated_in_block exact, the nine checks_field closures exact). The path-shape clauses are decided by the bounded stand-in: every reported path of every detector on the generated programs is re-validated against the AVM control rules computed from the independent parser (entry start, legal transfers, matched call/return, terminating last block, no revisit inside an activation, no duplicates).',
+            'bounded native contract check (BS-PROG) for the path shape + the deductive exactness contracts of C03 (pyvc) for the exclusion clause'),
  "C03": (P, "Proved on the real code: exactness clauses of the comparison kernels (fee: exact implied bound for six operators in both operand orders; group size/index: exact true/false sets; "
             "transaction kinds: a direct check by name or number in either order removes the kind it excludes; addresses: compared branch is never 'any address'); exact lattice operations; "
             "the engine equations are exact in gamma (reach-in, live-in, merge, gtxn update), a block with err / return 0 keeps only the null set, an exit other than bz/bnz leaves "
@@ -56,7 +54,8 @@ CHECKS = {
             "exhaustively; the `replace` pseudo-op (2 operands with an immediate, 0 included; 3 without); _flatten_ast and compute_equations proved (recursion, loop invariant). "
             "Stack.pop_n_values / construct_stack_ast are not under contract: bounded stackcheck.",
             "contract-based deductive verification (pyvc): table obligations"),
- "C12": (O, "Bounded stand-in only: construct_function on generated programs x dispatch prefixes (isomorphism for [B0], error blocks, contract graph unchanged, runs).", "bounded native check"),
+ "C12": (O, 'Bounded stand-in only: construct_function on generated programs x dispatch prefixes (isomorphism for [B0], error blocks, contract graph unchanged, runs, contexts independent of the build order, and function objects unchanged by the construction of later functions from the same contract).',
+            'bounded native check'),
  "C13": (O, "contract_checks_its_field / _txn_at_absolute_index / _using_relative_index are proved exact over the leaf blocks of the global graph (absolute_context, relative_context, "
             "gtxn_context under contract); validated_in_block is proved exact (own view, view at the given absolute index, or the view at every possible own index) against an uninterpreted checks_field; the group "
             "drivers are not under contract: generated group configurations vs brute-force group semantics with spec/avm.py (bounded).",
@@ -67,16 +66,18 @@ CHECKS = {
             "frame obligations (pyvc) + bounded relational runs + run-time engine contracts"),
  "C15": (P, "Proved congruences: is_int_push_ins reports the immediate as written and its AVM value (names denote assembler values), the enum maps map names and numbers alike, a direct kind "
             "check by name or number in either order gives the same exclusion. End-to-end invariance under the listed rewrites: bounded metamorphic stand-in.", "congruence clauses (pyvc) + metamorphic stand-in"),
- "C16": (O, "Bounded/exhaustive stand-in: every parser rule with all immediate spellings and decorations, independent byte-literal decoding, print-back round trip, unknown opcodes, line numbers, "
-            "exhaustive tokeniser strings <= 6. The no-capture lemma as string VCs is not built.", "exhaustive-over-rules native check against independent lexer/decoders"),
- "C17": (O, "Safety obligations (index, key, attribute, assert, raise) of the functions under contract are proved (tag C17); the CLI as a whole is decided by the bounded stand-in running every "
-            "subcommand on generated and adversarial layouts.", "safety obligations (pyvc) + bounded CLI runs"),
- "C18": (O, "Bounded stand-in only: DOT files read back and compared with the internal graph; JSON count/success/short notation; --filter-paths.", "bounded read-back check"),
+ "C16": (O, "Proved for every argument text (z3/cvc5 strings): the ordered prefix rules of parse_line never take an opcode for another one -- a mechanical slice of the rule loop of parse_line (rebuilt from the AST on every run; the constructor call and the attribute stores dropped) is executed over the real 174-entry parser_rules table, one contract per AVM opcode: the rule that fires is a rule of the line's own opcode, it is handed exactly the text after the opcode, and an opcode that has a rule is never left to the unsupported fallback. Not proved: the tokeniser, the immediate decoders, the instruction constructors and the printers -- bounded/exhaustive stand-in: every parser rule with all immediate spellings and decorations, independent byte-literal decoding, print-back round trip, unknown opcodes, line numbers, exhaustive tokeniser strings <= 6.",
+            'dispatch-table obligations on a mechanical slice (pyvc, cvc5 strings) + exhaustive-over-rules native check against independent lexer/decoders'),
+ "C17": (O, 'Safety obligations (index, key, attribute, assert, raise) of the functions under contract are proved (tag C17); the CLI as a whole is decided by the bounded stand-in running every subcommand on generated and adversarial layouts (incl. shared callees with a callsub as the last instruction).',
+            'safety obligations (pyvc) + bounded CLI runs'),
+ "C18": (O, 'Proved: ExecutionPaths.filter_paths leaves exactly the paths whose short notation the pattern does not match (re.search as an uninterpreted relation, the short notation a named function), the empty pattern is no filter, no other result object is written. Exhaustive: _repr_num_list over every subset of {0..16} (the whole input space of the block annotations) read back. Everything else bounded: DOT files read back and compared with the internal graph; JSON count/success/short notation; --filter-paths end to end.',
+            'one function under deductive contract (pyvc) + exhaustive annotation rendering + bounded read-back check'),
  "C19": (P, "Proved: _verify_version flags exactly the instructions/fields introduced after the declared version (every field kind) and mixed modes (loop invariant); cost of every class that defines "
             "it equals the AVM table for versions 1-8 and both curves. version/mode/defaults: exhaustive over classes, cross-read against pyteal; program-level mode classification "
             "(mode-only opcode anywhere in the text, reachable or not, and the application / logic-signature routing): every mode-specific mnemonic x 5 placements (bounded).",
             "contract-based deductive verification (pyvc) + exhaustive table check + bounded mode classification"),
- "C20": (O, "Bounded stand-in only: match_regex vs an independent reachability computation on generated and hand-written graphs (finding D10 for the covered set).", "bounded native check"),
+ "C20": (O, 'Proved: _is_match is exact against the chain of unique successors of the start instruction (the pattern occurs consecutively in straight-line code, same class and printed text; loop invariant over a ghost chain), _is_equal is exactly class + printed text, _find_label returns the label instruction of that name / the first instruction for `*`. Not proved: the DFS of _find_instructions / match_regex (reachability, the covered set): bounded stand-in, match_regex vs an independent reachability computation on generated and hand-written graphs (finding D10 for the covered set).',
+            'three functions under deductive contract (pyvc) + bounded native check of the traversal'),
 }
 props = [json.loads(l) for l in open("/verif/properties.jsonl")]
 m = json.load(open("/verif/MANIFEST.json"))
